@@ -861,8 +861,15 @@ class Ev:
         return P.atom(("bin", op, a, b))
 
     def e_BoolOp(self, n):
-        vals = [self.ev(v) for v in n.values]
+        # short circuit: operand i is evaluated only when every earlier operand held (and) / failed (or); the calls made while
+        # evaluating it carry those guards, exactly as if the test were written as nested ifs
         tag = "and" if isinstance(n.op, ast.And) else "or"
+        g0, vals = self.guards, []
+        for v in n.values:
+            val = self.ev(v)
+            vals.append(val)
+            self.guards = self.guards + split_guard(val, tag == "and")
+        self.guards = g0
         return boolop(tag, vals)
 
     def e_Compare(self, n):
